@@ -19,8 +19,8 @@ def classify(m):
         return "C02"
     if "Merge" in what or "after merge" in what:
         return "C09"
-    if "limit" in json.dumps(m.get("want", "")) or "toobig" in json.dumps(m.get("want", "")) \
-            or "limit" in json.dumps(m.get("got", "")) or "toobig" in json.dumps(m.get("got", "")):
+    blob = what + json.dumps(m.get("want", "")) + json.dumps(m.get("got", ""))
+    if "specified result: limit" in blob or "specified result: toobig" in blob or '"limit"' in blob or '"toobig"' in blob:
         return "C18"
     if cls in ("error", "harness"):
         return "harness"
